@@ -101,6 +101,29 @@ MUTATIONS = [
     ('backdate-everything-monotone', 'Verify', 'src/function/backdate.rs',
      "} else if old_memo.header.was_cycle_participant()\n            && old_memo.header.revisions.changed_at > revisions.changed_at",
      "} else if old_memo.header.revisions.changed_at > revisions.changed_at"),
+    # the wait-for graph (LogicDG)
+    ('dg-depends-on-hop-limit', 'DG', 'src/runtime/dependency_graph.rs',
+     r"re:while let Some\(q\) = self\.0\.get\(&p\)\.map\(\|edge\| edge\.blocked_on_id\) \{\s*if q == to_id \{\s*return true;\s*\}\s*p = q;\s*\}",
+     "for _ in 0..MAX_CHAIN_LEN {\n            let Some(q) = self.0.get(&p).map(|edge| edge.blocked_on_id) else {\n                break;\n            };\n            if q == to_id {\n                return true;\n            }\n            p = q;\n        }"),
+    ('dg-depends-on-counter', 'DG', 'src/runtime/dependency_graph.rs',
+     r"re:if q == to_id \{\s*return true;\s*\}\s*p = q;",
+     "if q == to_id {\n                return true;\n            }\n            hops += 1;\n            if hops > 8 {\n                return false;\n            }\n            p = q;"),
+    ('dg-occupied-thread-changed', 'DG', 'src/runtime/dependency_graph.rs',
+     r"re:(compared to just updating all dependent threads\.\s*)true",
+     r"\1current_thread != new_owner_thread"),
+    ('dg-depends-on-tail-false', 'DG', 'src/runtime/dependency_graph.rs',
+     "        p == to_id\n    }", "        false\n    }"),
+    ('dg-notify-before-store', 'DG', 'src/runtime/dependency_graph.rs',
+     r"re:(let edge = self\.edges\.remove\(&id\)\.expect\(\"not blocked\"\);\s*)(self\.wait_results\.insert\(id, wait_result\);)(.*?)(edge\.notify\(\);)",
+     r"\1\4\3\2"),
+    ('dg-transfer-blocks-without-cycle-test', 'DG', 'src/runtime/dependency_graph.rs',
+     r"re:if current_thread != new_owner_thread\s*&& !dg\.depends_on\(new_owner_thread, current_thread\)",
+     "if current_thread != new_owner_thread"),
+    ('dg-block-cycle-test-reversed', 'DG', 'src/runtime.rs',
+     "if dg.depends_on(other_id, thread_id) {", "if dg.depends_on(thread_id, other_id) {"),
+    ('dg-release-mutex-before-edge', 'DG', 'src/runtime/dependency_graph.rs',
+     r"re:(unsafe \{ me\.add_edge\(from_id, database_key, to_id, cvar\) \};)(.*?)(drop\(query_mutex_guard\);)",
+     r"\3\2\1"),
 ]
 
 
@@ -182,7 +205,7 @@ def main():
     head_sources(os.path.join(base, 'repo'))
     gen = [sys.executable, os.path.join(ROOT, 'translate', 'gen.py')]
     rc, out = sh(gen + ['--repo', os.path.join(base, 'repo'), '--out', os.path.join(base, 'gen'),
-                        'LogicVerify', 'LogicIntern', 'LogicCycle', 'LogicStructs'])
+                        'LogicVerify', 'LogicIntern', 'LogicCycle', 'LogicStructs', 'LogicDG'])
     if rc != 0:
         print("baseline does not translate:", out); sys.exit(1)
     rows = []
@@ -195,7 +218,7 @@ def main():
         p = os.path.join(work, 'repo', path)
         s = open(p).read()
         if old.startswith('re:'):
-            s2, k = re.subn(old[3:], lambda _m: new, s, flags=re.S)
+            s2, k = re.subn(old[3:], new, s, flags=re.S)
         else:
             s2, k = s.replace(old, new), s.count(old)
         if k != 1:
